@@ -110,6 +110,8 @@ structure Env where
   owner : List (String × String) := []
   idxs : List (String × AnyIdx) := []
   strides : List (String × Stride) := []
+  /-- handles whose last push was refused: never touched again -/
+  poisoned : List String := []
 
 namespace Env
 def bankOf (e : Env) (h : String) : Option (String × Bank) :=
@@ -137,7 +139,7 @@ def fmtPairs (ps : List (Nat × Nat)) : String :=
   "pairs [" ++ ",".intercalate (ps.map fun (u, c) => s!"({u},{c})") ++ "]"
 
 /-- `newBank` is the generated catalogue -/
-def step (newBank : String → Option Bank) (env : Env) (line : String) : Env × String :=
+def stepInner (newBank : String → Option Bank) (env : Env) (line : String) : Env × String :=
   match line.trimAscii.toString.splitOn " " with
   | ["reset"] => ({}, "ok")
   | ["new", h, "stride"] =>
@@ -329,5 +331,42 @@ def step (newBank : String → Option Bank) (env : Env) (line : String) : Env ×
     | some s => (env, strideObs s)
     | none => (env, "bad-op")
   | _ => (env, "bad-op")
+
+/-- handles read or mutated by a line -/
+def usedHandles (env : Env) : List String → List String
+  | "new" :: _ => []
+  | ["reset"] => []
+  | ["allocs"] => []
+  | "merge" :: _ :: _ :: srcs => srcs
+  | ["clone", _, h] => [h]
+  | ["serde", _, h] => [h]
+  | ["cmp", h1, _, _, h2, _, _] => if env.poisoned.contains h1 then [h1] else [h2]
+  | "x" :: h :: _ => [h]
+  | _ :: rest => rest
+  | [] => []
+
+def step (newBank : String → Option Bank) (env : Env) (line : String) : Env × String :=
+  let parts := line.trimAscii.toString.splitOn " "
+  if (usedHandles env parts).any env.poisoned.contains then
+    -- whatever this operation would have created or mutated is unknown now
+    match parts with
+    | op :: h :: _ =>
+      if ["merge", "clone", "serde", "clone_from", "pushitem", "reserve_regions"].contains op then
+        ({ env with poisoned := h :: env.poisoned }, "poisoned")
+      else (env, "poisoned")
+    | _ => (env, "poisoned")
+  else
+    let env := match parts with
+      | "new" :: h :: _ => { env with poisoned := env.poisoned.filter (· != h) }
+      | "merge" :: h :: _ => { env with poisoned := env.poisoned.filter (· != h) }
+      | ["clone", h, _] => { env with poisoned := env.poisoned.filter (· != h) }
+      | ["serde", h, _] => { env with poisoned := env.poisoned.filter (· != h) }
+      | _ => env
+    let (env', out) := stepInner newBank env line
+    if out == "refused" then
+      match parts with
+      | _ :: h :: _ => ({ env' with poisoned := h :: env'.poisoned }, out)
+      | _ => (env', out)
+    else (env', out)
 
 end FC
